@@ -139,3 +139,16 @@ claim('C27', 'other',
       'static analysis: shape of the escaping functions, regex AST of the bare-word pattern (anchors, character classes), decision table of '
       'is_valid_name/maybe_escape_name, folded reserved-word sets, and a who-may-interpolate rule over every quoted %s placeholder in generated CQL '
       '(schema export, USE)', 'regex AST (re._parser) + path enumeration + constant folding + format-string placeholder analysis', _TB, 'DESIGN.md section 5 C27')
+
+claim('C28', 'other',
+      'static analysis (narrow): registry triples against a specification table, notation helpers, UDT parameter positions and hex decoding, cache '
+      'validity atoms of make_udt_class, and that numbers are parsed only as vector parameters (dataflow fact). Parse/print identities over unbounded '
+      'nesting are not decided', 'registry extraction + atom normalisation + CFG branch facts', _TB, 'DESIGN.md section 5 C28')
+claim('C29', 'other',
+      'static analysis (narrow): taint shape of bind_params, quoting of textual encoders and of the dispatch fallback, recursion of collection encoders '
+      'through the mapping, sibling agreement of the datetime/date literal encoders with the prepared-path codecs, lossy-conversion rule',
+      'taint-shape rules + sibling cross-check', _TB, 'DESIGN.md section 5 C29')
+claim('C30', 'other',
+      'static analysis: decision facts of BoundStatement.bind by CFG dataflow (missing / extra / UNSET / None x protocol version), dominance of the '
+      'routing-key refusal over the UNSET append, component layout of composite routing keys, sibling rule Statement vs BoundStatement, partition-key order '
+      'of derived routing indexes', 'CFG dataflow with branch facts + layout constant folding + sibling cross-check', _TB, 'DESIGN.md section 5 C30')
